@@ -11,6 +11,7 @@ services with the same attributes get the same defaults whatever they are called
 * `defaultValues_star_at_key` — the regenerated table has `*` as the second part of every pattern;
 * `setDefaults_keyBlind` (+ `…KVs`, `…List`) — for any table with that shape, the walker returns the same outcome at two
   paths that differ only in their second part, for every document (structural induction over the document);
+* `services_entry_key_irrelevant` — renaming a service in the `services` mapping renames it in the result, nothing else;
 * `walker_blind_to_service_key`, `service_pipeline_blind_to_service_key` — instances for `services.<x>` / `services.<y>`:
   `SetDefaultValues`, and Canonical ; SetDefaultValues ; Normalize on the attributes of one service.
 
@@ -97,6 +98,25 @@ theorem walker_blind_to_service_key (x y : String) (rest : List String) (v : Val
     setDefaults CV.Gen.defaultValues ("services" :: x :: rest) v =
       setDefaults CV.Gen.defaultValues ("services" :: y :: rest) v :=
   setDefaults_keyBlind _ defaultValues_star_at_key v _ _ ⟨"services", x, y, rest, rfl, rfl⟩
+
+/-- **renaming a service** in the `services` mapping renames it in the result of `SetDefaultValues` and changes nothing
+else: the first entry stored under `x` or under `y` comes out with the same value, the rest of the mapping the same -/
+theorem services_entry_key_irrelevant (x y : String) (v v' : Val) (r r' : List (String × Val)) :
+    setDefaultsKVs CV.Gen.defaultValues ["services"] ((x, v) :: r) = .ok ((x, v') :: r') ↔
+      setDefaultsKVs CV.Gen.defaultValues ["services"] ((y, v) :: r) = .ok ((y, v') :: r') := by
+  have hn : ∀ k : String, TPath.next ["services"] k = ["services", k.replace "." TPath.ghost] := fun k => by
+    simp [TPath.next, TPath.root]
+  have hb := setDefaults_keyBlind _ defaultValues_star_at_key v _ _
+    ⟨"services", x.replace "." TPath.ghost, y.replace "." TPath.ghost, [], rfl, rfl⟩
+  rw [setDefaultsKVs, setDefaultsKVs, hn, hn, hb]
+  cases setDefaults CV.Gen.defaultValues ["services", y.replace "." TPath.ghost] v with
+  | ok w =>
+    cases setDefaultsKVs CV.Gen.defaultValues ["services"] r with
+    | ok r2 => simp
+    | err e => simp
+    | panic z => simp
+  | err e => simp
+  | panic z => simp
 
 /-- the three defaulting stages on the attributes of one service do not depend on the key it is stored under -/
 theorem service_pipeline_blind_to_service_key (x y : String) (clean : String → String) (env : Env) (s : KVs) :
